@@ -1241,6 +1241,9 @@ func (fx *FnExec) wouldBeOpaque(fn *ssa.Function) bool {
 	if fn.Blocks == nil {
 		return true
 	}
+	if fn.String() == "sort.Slice" {
+		return true // inside a loop: everything may change (its effect is only modelled at top level)
+	}
 	if fx.inRepo(fn) || fn.Synthetic != "" {
 		if rc := fx.root().con; rc != nil && rc.Opaque[fn.Name()] {
 			return true
